@@ -202,18 +202,19 @@ _WPS_VALUE = ['dd_dtw.c::dtw_wps_negativize_value', 'dd_dtw.c::dtw_wps_positiviz
 _TRACEBACK = ['dd_dtw.c::dtw_best_path', 'dd_dtw.c::dtw_best_path_isclose', 'dd_dtw.c::dtw_best_path_customstart',
               'dd_dtw.c::dtw_best_path_affinity']
 _ALL_C_PROVED = (PROPS['C09']['contracts'][:10] + PROPS['C06']['contracts'][6:] + PROPS['C07']['contracts'] + PROPS['C02']['contracts']
-                 + _WPS_LAYOUT + _WPS_VALUE + _TRACEBACK)
+                 + _WPS_LAYOUT + _WPS_VALUE + _TRACEBACK
+                 + ['dd_dtw.c::dtw_settings_default', 'dd_dtw.c::dtw_settings_set_psi', 'dd_dtw.c::dtw_block_empty'])
 
 PROPS['C08'] = dict(
-    modules=['contracts.ed_c', 'contracts.bounds_c', 'contracts.dtw_matrix_c', 'contracts.dtw_omp_c', 'contracts.dtw_c', 'contracts.wps_c', 'contracts.bestpath_c'],
+    modules=['contracts.ed_c', 'contracts.bounds_c', 'contracts.dtw_matrix_c', 'contracts.dtw_omp_c', 'contracts.dtw_c', 'contracts.wps_c', 'contracts.bestpath_c', 'contracts.misc_c'],
     contracts=[c for c in _ALL_C_PROVED if '::' in c],
     lemmas=['LenFullClosed', 'LenRectClosed', 'RowsBefore', 'RowsBeyond', 'LenFullBeyond', 'LenRowsNonneg',
             'RowAllInf', 'RowLeadInf', 'FoldMinIsMin'],
     bounded=dict(_CML, **dict(_CAFF, **_CDBA)),
     level='proof',
-    level_text='For 41 exported C routines (Euclidean bounds, LB_Keogh, block/length helpers, the six serial and six OpenMP '
+    level_text='For 44 exported C routines (Euclidean bounds, LB_Keogh, block/length helpers, the six serial and six OpenMP '
                'distance-matrix routines with their prepare step, the four DTW kernels, and the compact-layout helpers dtw_wps_parts, '
-               'dtw_settings_wps_length/width, dtw_wps_loc, dtw_wps_loc_columns, dtw_wps_max, dtw_wps_negativize_value/positivize_value, and the tracebacks dtw_best_path, dtw_best_path_isclose, dtw_best_path_customstart, dtw_best_path_affinity (start cell in the band) -- for every content of the compact matrix) every array access, every signed idx_t '
+               'dtw_settings_wps_length/width, dtw_wps_loc, dtw_wps_loc_columns, dtw_wps_max, dtw_wps_negativize_value/positivize_value, and the tracebacks dtw_best_path, dtw_best_path_isclose, dtw_best_path_customstart, dtw_best_path_affinity (start cell in the band) -- for every content of the compact matrix; and the constructors / setter dtw_settings_default, dtw_block_empty, dtw_settings_set_psi) every array access, every signed idx_t '
                'operation, every division, every assert() and every pointer dereference is a discharged obligation under the '
                'documented buffer sizes, for all lengths/windows/psi/blocks. The remaining exported routines (cost matrix in the '
                'compact layout, expansion, slices, best path, warping path) are covered by a *bounded* sanitizer sweep only.',
